@@ -141,7 +141,7 @@ def check(prog, rep):
         while p is not None and not isinstance(p, ast.For):
             p = getattr(p, "_parent", None)
         ok = ok and p is not None and src(p.iter) == "self._constraints" and "is not source_vector" in src(p) and any(isinstance(x, ast.Break) for x in ast.walk(p))
-    rep.ob("R16.3", "Problem.variables", ok, "the shortcut is taken only if the objective and every constraint yield the same source object" if ok else "the shortcut is taken without checking that every constraint depends on the same vector", loc=pv.loc, detail="all-constraints-agree")
+    rep.pin("Problem.variables shape rules", "R16.3", "Problem.variables", ok, "the shortcut is taken only if the objective and every constraint yield the same source object" if ok else "the shortcut is taken without checking that every constraint depends on the same vector", loc=pv.loc, detail="all-constraints-agree")
 
     # ------------------------------------------------------------------ R16.4
     pm = problem_model(prog)
@@ -166,19 +166,19 @@ def check(prog, rep):
     sp1 = [src(n.value) for n in walk_local(vinit.node) if isinstance(n, ast.Assign) and src(n.targets[0]) == "parts"]
     sp2 = [src(n.value) for n in walk_local(nat[0].node) if isinstance(n, ast.Assign) and src(n.targets[0]) == "parts"]
     same = same and sp1 == sp2 and bool(sp1)
-    rep.ob("R16.4", "natural-key", same, "Variable._sort_key and the fallback key are the same expression" if same else "the two copies of the natural sort key differ", loc=nat[0].loc, detail="two-copies-agree")
+    rep.pin("Problem.variables shape rules", "R16.4", "natural-key", same, "Variable._sort_key and the fallback key are the same expression" if same else "the two copies of the natural sort key differ", loc=nat[0].loc, detail="two-copies-agree")
     numeric = bool(k1) and "int(p) if p.isdigit() else p" in src(k1[0])
-    rep.ob("R16.4", "natural-key", numeric, "digit runs compare numerically" if numeric else "the sort key does not convert digit runs to integers (x[10] would sort before x[2])", loc=vinit.loc, detail="numeric-aware")
+    rep.pin("Problem.variables shape rules", "R16.4", "natural-key", numeric, "digit runs compare numerically" if numeric else "the sort key does not convert digit runs to integers (x[10] would sort before x[2])", loc=vinit.loc, detail="numeric-aware")
 
     # ------------------------------------------------------------------ R16.5 / R16.6
     gb = P.methods.get("get_bounds")
     ok = gb is not None and any(isinstance(n, ast.ListComp) and src(n.generators[0].iter) == "self.variables" and src(n.elt) == f"({src(n.generators[0].target)}.lb, {src(n.generators[0].target)}.ub)" for n in walk_local(gb.node))
-    rep.ob("R16.5", "Problem.get_bounds", ok, "[(v.lb, v.ub) for v in self.variables]" if ok else "get_bounds does not pair (lb, ub) of each variable in self.variables order", loc=gb.loc if gb else P.loc, detail="bounds")
+    rep.pin("Problem.variables shape rules", "R16.5", "Problem.get_bounds", ok, "[(v.lb, v.ub) for v in self.variables]" if ok else "get_bounds does not pair (lb, ub) of each variable in self.variables order", loc=gb.loc if gb else P.loc, detail="bounds")
     general = [n for n in walk_local(pv.node) if isinstance(n, ast.AnnAssign) and "set" in src(n.annotation)] + [n for n in walk_local(pv.node) if isinstance(n, ast.Assign) and isinstance(n.value, ast.Call) and dotted(n.value.func) == "set"]
-    rep.ob("R16.6", "Problem.variables", bool(general), "variables are collected through a set (one entry per name)" if general else "variables are not de-duplicated through a set", loc=pv.loc, detail="set")
+    rep.pin("Problem.variables shape rules", "R16.6", "Problem.variables", bool(general), "variables are collected through a set (one entry per name)" if general else "variables are not de-duplicated through a set", loc=pv.loc, detail="set")
     covers_obj = any(dotted(c.func) == "get_all_variables" and "_objective" in src(c.args[0]) for c in calls(pv.node))
     covers_con = any(isinstance(n, ast.For) and src(n.iter) == "self._constraints" and ".update(" in src(n) for n in walk_local(pv.node))
-    rep.ob("R16.6", "Problem.variables", covers_obj and covers_con, "the general path unions the objective and every constraint" if covers_obj and covers_con else "the general path does not union the variables of the objective and of every constraint", loc=pv.loc, detail="union")
+    rep.pin("Problem.variables shape rules", "R16.6", "Problem.variables", covers_obj and covers_con, "the general path unions the objective and every constraint" if covers_obj and covers_con else "the general path does not union the variables of the objective and of every constraint", loc=pv.loc, detail="union")
     for fi_, d_ in ((walker, d), (sc, ds)):
         da = dead_arms(prog, d_)
         rep.ob("R16.2" if fi_ is walker else "R16.3", fi_.name, not da, "no arm is shadowed" if not da else f"arm for {da[0][0].kinds} is shadowed by the earlier arm for {da[0][1].kinds}", loc=fi_.loc, detail="order")
